@@ -28,7 +28,9 @@ SPEC = {
              "line, repeat the file), or a hostile constant, or random bytes, or an unmodified valid file; preload on/off (continueonerror "
              "on/off for grpc/json), limit in {0,1,2,5,12}, passes in {0,1,2}; one case in four is metamorphic: a valid file V, then garbage G "
              "on a fresh line (G known-malformed for the format in two of three). F6: scengen descriptions (YAML and HCL) with 1-2 "
-             "structured mutations out of 25 (leading / only sleep(), 20 bad step strings, unknown request, no scenarios, no step "
+             "structured mutations out of 27 (leading / only sleep(), sleep() behind 1-3 steps name(c) with c <= 0 that build no request - in "
+             "front of the list, in place of it or in front of its tail -, zero / negative multiplicities on all steps, on the steps in "
+             "front of the first sleep() or on one step, 20 bad step strings, unknown request, no scenarios, no step "
              "definitions, duplicate names, negative / zero / huge weights, empty / broken / odd CSV and JSON sources, missing file, unknown "
              "component type, hostile index expressions, template syntax, placeholders, hostile postprocessor expressions), and/or byte "
              "mutations of the rendered text, or hostile constants. F7: four pool configurations with 0-2 scalar positions replaced by "
@@ -45,6 +47,9 @@ SPEC = {
         "TestF2Uripost/op_digits": 0.1, "TestF3Raw/op_digits": 0.1, "TestF1Uri/preload": 0.3, "TestF5GrpcJSON/continue_on_error": 0.3,
         "TestF6Scenario/syntax_hcl": 0.2, "TestF6Scenario/kind_grpc": 0.2, "TestF6Scenario/must_reject_rejected": 0.1,
         "TestF6Scenario/accepted": 0.1, "TestF6Scenario/rejected_at_construction": 0.2,
+        # sleep() at index >= 1 of a request list while every step in front of it expands to zero requests (model-level label)
+        "TestF6Scenario/list_sleep_after_empty_prefix_http": 0.006, "TestF6Scenario/list_sleep_after_empty_prefix_grpc": 0.003,
+        "TestF6Scenario/list_scenario_of_zero_requests": 0.006, "TestF6Scenario/list_negative_count": 0.01, "TestF6Scenario/list_zero_count": 0.01,
         "TestF7Config/must_reject": 0.15, "TestF7Config/accepted": 0.1, "TestF7Config/rejected": 0.3,
         "TestF8Parsers/index_into_empty_array": 0.02, "TestF8Parsers/target_xpath": 0.08, "TestF8Parsers/target_header": 0.08,
         "TestF8Parsers/func_ok": 0.02, "TestF8Parsers/func_error": 0.02,
